@@ -3,6 +3,14 @@
 import json, subprocess
 
 CLAIMED = {
+ "C01": dict(
+   text="Seeded deterministic simulation of whole platforms running the shipped workloads through their own Run()/Verify(): each run draws a workload from a table of 27 entries (every amd/benchmarks directory with a Verify that checks something; admissible parameter ranges established against the stock runner), its size/shape parameters (sizes that are not multiples of the work-group size included), input seed, architecture (gcn3 / cdna3 binaries), mode (emulation; timing on the shipped R9 Nano or MI300A, or on a reduced platform with drawn shader arrays, CUs, L2 size and DRAM banks), GPU set (1, 2, 4; plain or unified device), unified memory, and the order of same-time events (permuted in half of the timing runs); one simulation per process inside a synctest bubble. Oracle = the workload's own host reference (Verify, and the GPU-vs-CPU operator cross-check for the DNN layers), no crash, exact liveness. Genuine defects are recorded as known findings (stale first-level caches across kernels on timing platforms; page migration not wired on multi-GPU timing platforms) or repaired (fix: commits). Exploration, not proof.",
+   note="Trusted: the table's admissible ranges (plat/benchtable.go lists what was excluded and why - each exclusion is itself a documented failure of the unmodified tree), synctest, the controller; canonical host schedule. A failed Verify on a run in which the stale-first-level-cache condition was observed on the caches' ports is reported under that named cause.",
+   ref="6 (C01), 12"),
+ "C02": dict(
+   text="Seeded differential simulation: the same race-free program with the same inputs runs on an emulation platform and on a timing platform in one process - reduced R9 Nano / MI300A platforms with drawn shader arrays (1-4), CUs per array (1-4), L2 size, DRAM banks; the shipped R9 Nano and MI300A (register scoreboard on); same-time events permuted in 2 of 3 timing runs. Programs: generated kernels (kasm: drawn ALU mixes with data-dependent divergence, records at cache-line-unaligned addresses read with dword/x2/x4/byte/short loads, scalar loads, wait counts; LDS exchange through barriers; the id probe in both id conventions) and the shipped race-free workloads at small sizes in both architectures. Oracle: every live device buffer byte-identical (hook Context.VerifBuffers + MemCopyD2H) and, per wavefront, the identical sequence of executed instructions (emulator instruction hook vs timing-CU 'inst' tracing tasks), hence equal retired-instruction counts. One genuine defect repaired (fix: commit: sub-dword loads in the timing CU), one recorded (stale first-level caches across kernels). Exploration, not proof.",
+   note="Trusted: generated programs are race-free by construction, shipped workloads by the table's RaceFree flag; instruction identity is the printed instruction; kasm self-checked with the repository's disassembler.",
+   ref="6 (C02), 12"),
  "C05": dict(
    text="Seeded deterministic simulation with the host schedule as the explored dimension: each run executes one drawn workload (copies, copy kernels, queued and synchronous commands; emulation platforms and shipped r9nano/mi300a timing platforms with the DMA path) four times in fresh processes with the stock SerialEngine's event order - canonical host schedule, two different drawn host schedules of the real application/runAsync/runEngine goroutines (synctest + controlled scheduler), and one repetition under another GOMAXPROCS - and compares simulated times at every API return, final time, event count and device data. Decides: same schedule => identical across processes/core counts (R1), data identical across host schedules (R2b), times identical across host schedules (R2a). R2a is violated on the unchanged tree by a genuine defect that is recorded as a known finding (host timing leaks into the time at which the driver's tick is scheduled); R1 and R2b hold. Exploration, not proof.",
    note="Trusted: faithful engine mode equals sim.SerialEngine's order, synctest, the controller; one application thread. The parallel-engine clause is exercised by the tie-permuting runs of the other whole-platform checks. Reported metrics are represented by simulated times and event counts, not by the reporter's table.",
@@ -66,8 +74,6 @@ NOT_APPLICABLE = [
 ]
 # properties planned but whose check is not built yet are listed as not claimed (with that reason) until it exists
 PENDING = {
- "C01": "check not built yet (planned: whole-platform simulation, DESIGN 6 C01)",
- "C02": "check not built yet (planned: emu-vs-timing differential simulation, DESIGN 6 C02)",
 }
 
 def hook_commits():
